@@ -3,8 +3,10 @@ package main
 import (
 	"bufio"
 	"bytes"
+	"crypto"
 	"encoding/json"
 	"fmt"
+	"io"
 	"math/big"
 	"os"
 	"os/exec"
@@ -43,6 +45,8 @@ type c06Result struct {
 	Auth   []byte  `json:"auth"` // Marshal of the returned descriptor
 	T0, T1 int64
 	Err    string `json:"err"`
+	OutLater []byte `json:"out_later"` // the same Marshallable read again after all later calls
+	Slow   bool   `json:"slow"`
 	Zone   string `json:"zone"`
 	ZoneOff int   `json:"zone_off"`
 }
@@ -90,6 +94,11 @@ func c06Cases(seed int64, n int) []c06Case {
 		}
 		out = append(out, c)
 	}
+	// the same variable (name and GUID) signed with different attribute masks one after the other
+	dbg := fromLib(*efivar.Db.GUID).BE()
+	for k, a := range []uint32{0x27, 0x67, 0x27, 0x07} {
+		out = append(out, c06Case{Name: "db", GUIDBE: dbg, Attrs: a, Payload: c12db(1, k).Bytes(), PKind: "sha256-lists", Key: k % 4, Serial: int64(900 + k)})
+	}
 	return out
 }
 
@@ -101,15 +110,26 @@ func c06ChildMain() {
 	defer w.Flush()
 	enc := json.NewEncoder(w)
 	zone, off := time.Now().Zone()
-	for _, c := range c06Cases(mon.Seed(), n) {
+	var kept []efivar.Marshallable
+	var results []*c06Result
+	cases := c06Cases(mon.Seed(), n)
+	for ci, c := range cases {
 		g := toLib(refguid.FromBE(c.GUIDBE))
 		v := efivar.Efivar{Name: c.Name, GUID: &g, Attributes: attributes.Attributes(c.Attrs)}
 		k := keys.Get(c.Key)
 		cert := keys.Simple(k, "c06", c.Serial)
-		res := c06Result{Case: c, Zone: zone, ZoneOff: off}
+		res := &c06Result{Case: c, Zone: zone, ZoneOff: off}
+		var signer crypto.Signer = k.Priv
+		if ci == 1 || ci == len(cases)-2 {
+			// a signer that answers only after the next full second has begun (a slow token)
+			signer = slowSigner{k.Priv}
+			res.Slow = true
+		}
 		res.T0 = time.Now().Unix()
+		var mm efivar.Marshallable
 		p := tryP(func() {
-			av, m, err := signature.SignEFIVariable(v, rawVal(c.Payload), k.Priv, cert)
+			av, m, err := signature.SignEFIVariable(v, rawVal(c.Payload), signer, cert)
+			mm = m
 			res.T1 = time.Now().Unix()
 			if err != nil {
 				res.Err = err.Error()
@@ -123,8 +143,25 @@ func c06ChildMain() {
 		if p != "" {
 			res.Err = "panic: " + p
 		}
-		enc.Encode(&res)
+		kept = append(kept, mm)
+		results = append(results, res)
 	}
+	// read every kept result again after all the later calls
+	for i, m := range kept {
+		if m != nil {
+			tryP(func() { results[i].OutLater = m.Bytes() })
+		}
+		enc.Encode(results[i])
+	}
+}
+
+type slowSigner struct{ inner crypto.Signer }
+
+func (s slowSigner) Public() crypto.PublicKey { return s.inner.Public() }
+func (s slowSigner) Sign(r io.Reader, d []byte, o crypto.SignerOpts) ([]byte, error) {
+	now := time.Now()
+	time.Sleep(now.Truncate(time.Second).Add(time.Second + 60*time.Millisecond).Sub(now))
+	return s.inner.Sign(r, d, o)
 }
 
 func c06Buffer(name string, guidWire []byte, attrs uint32, ts, payload []byte, variant string) []byte {
@@ -220,6 +257,13 @@ func checkC06(r *mon.Run) {
 			if res.Err != "" {
 				fail("sign-failed", "SignEFIVariable failed: "+res.Err)
 				continue
+			}
+			if res.OutLater != nil && !bytes.Equal(res.OutLater, res.Out) {
+				fail("result-changed-after-later-calls", fmt.Sprintf("the value returned by SignEFIVariable read differently after later SignEFIVariable calls (first difference at byte %d of %d)", firstDiff(res.Out, res.OutLater), len(res.Out)))
+				continue
+			}
+			if res.Slow {
+				r.Count("cases_with_signer_crossing_a_second_boundary", 1)
 			}
 			a, n, err := refauth2.ParseAuth2(res.Out)
 			if err != nil {
@@ -345,8 +389,8 @@ func checkC06(r *mon.Run) {
 				r.Sample(map[string]any{"tz": tzName, "zone": res.Zone, "zone_offset_s": res.ZoneOff, "name": c.Name, "attrs": c.Attrs, "payload": c.PKind, "timestamp": fmt.Sprintf("%04d-%02d-%02d %02d:%02d:%02d", t.Year, t.Month, t.Day, t.Hour, t.Minute, t.Second), "dwLength": a.Cert.Length, "output_len": len(res.Out)})
 			}
 		}
-		if idx != per {
-			r.Inconclusive("C06 child TZ=%s reported %d of %d cases: %s", tzName, idx, per, lastLines(stderr.String(), 2))
+		if idx != per+4 {
+			r.Inconclusive("C06 child TZ=%s reported %d of %d cases: %s", tzName, idx, per+4, lastLines(stderr.String(), 2))
 		}
 	}
 	r.Floor("cases_ok", int64(per*len(zones)*9/10))
